@@ -169,4 +169,34 @@ def strip0x (s : List Nat) : List Nat := deleteFirst [48, 120] s
 /-- `Subnets.FromString(str)`; `none` = parse error. A trailing odd character is ignored. -/
 def subnetsFromString (str : List Nat) : Option (List Nat) := fromStringPairs (strip0x str)
 
+/-! ### subnet-vector helpers used by peer selection / discovery (`SharedSubnets`, `DiffSubnets`, `Active`) -/
+
+/-- the scan loop of `SharedSubnets`: `i` = current index, `cnt` = entries appended so far,
+    `lim` = the (already defaulted) `maxLen`. The Go loop ends at the first index that `b` does not have,
+    and right after the append that makes `len(shared) == maxLen` (so a negative or otherwise
+    never-reached `maxLen` is modelled by any `lim` that is not hit; the driver passes `none`). -/
+def sharedGo : List Nat → List Nat → Nat → Nat → Option Nat → List Nat
+  | [], _, _, _, _ => []
+  | _ :: _, [], _, _, _ => []
+  | av :: as, bv :: bs, i, cnt, lim =>
+    if av = 0 ∨ bv = 0 then sharedGo as bs (i + 1) cnt lim
+    else if lim = some (cnt + 1) then [i]
+    else i :: sharedGo as bs (i + 1) (cnt + 1) lim
+
+/-- `SharedSubnets(a, b, maxLen)`. `maxLen == 0` means `len(a)`; a negative `maxLen` never stops the scan. -/
+def sharedSubnets (a b : List Nat) (maxLen : Int) : List Nat :=
+  let lim : Option Nat := if maxLen = 0 then some a.length else if maxLen < 0 then none else some maxLen.toNat
+  if a.isEmpty || b.isEmpty then [] else sharedGo a b 0 0 lim
+
+def diffGo : List Nat → List Nat → Nat → List (Nat × Nat)
+  | _, [], _ => []
+  | [], bv :: bs, i => (i, bv) :: diffGo [] bs (i + 1)
+  | av :: as, bv :: bs, i => if av ≠ bv then (i, bv) :: diffGo as bs (i + 1) else diffGo as bs (i + 1)
+
+/-- `DiffSubnets(a, b)`: the Go map, listed by increasing key -/
+def diffSubnets (a b : List Nat) : List (Nat × Nat) := diffGo a b 0
+
+/-- `Subnets.Active()` -/
+def active (s : List Nat) : Nat := (s.filter (· > 0)).length
+
 end Ssv.Topics
